@@ -1,0 +1,75 @@
+//go:build verif
+
+package redisemu
+
+// C15: RESP3 -> RESP2 down-conversion. resp2(v) = "v carries only RESP2 types
+// at every depth"; it is an uninterpreted predicate with its introduction
+// rules as axioms (an inductive definition: the rules can only be used to
+// establish resp2, never to refute it).
+
+//@ uf resp2(v respValue) bool
+//@ axiom forall v respValue :: v.data == nil ==> resp2(v)
+//@ axiom forall v respValue :: (istype(v.data, respSimpleString) || istype(v.data, respErrorString) || istype(v.data, respInt) || istype(v.data, respBulkString)) ==> resp2(v)
+//@ axiom forall v respValue :: istype(v.data, respArray) && all(j, 0, len(unbox(v.data, respArray)), resp2(unbox(v.data, respArray)[j])) ==> resp2(v)
+
+// the dynamic types the converter handles (handlers never build respPush / respEnd replies)
+//@ pred respConvertible(v respValue) = v.data == nil || istype(v.data, respSimpleString) || istype(v.data, respErrorString) || istype(v.data, respBulkString) || istype(v.data, respInt) || istype(v.data, respDouble) || istype(v.data, respBool) || istype(v.data, respBlobError) || istype(v.data, respNull) || istype(v.data, respBigNumber) || istype(v.data, respVerbatimString) || istype(v.data, respArray) || istype(v.data, respSet) || istype(v.data, respAttributeMap) || istype(v.data, respMap) || istype(v.data, respPairs)
+
+//@ func respBlobError.String
+//@ trusted string conversion
+//@ pure
+//@ func respDouble.String
+//@ trusted string conversion
+//@ pure
+//@ func respBigNumber.String
+//@ trusted string conversion
+//@ pure
+//@ func orderedRespMap.mustGet
+//@ trusted map lookup
+//@ pure
+
+//@ func resp3To2
+//@ prop C15
+//@ requires free convertible: respConvertible(val3)
+//@ modifies heap
+//@ ensures [C15] resp2: resp2(value)
+//@ ensures [C15] scalar: (istype(val3.data, respSimpleString) || istype(val3.data, respErrorString) || istype(val3.data, respInt) || istype(val3.data, respBulkString)) ==> value == val3
+//@ ensures [C15] bool: istype(val3.data, respBool) ==> istype(value.data, respInt) && unbox(value.data, respInt) == ite(unbox(val3.data, respBool), 1, 0)
+//@ ensures [C15] text: (istype(val3.data, respDouble) || istype(val3.data, respBigNumber) || istype(val3.data, respVerbatimString)) ==> istype(value.data, respBulkString)
+//@ ensures [C15] null: (val3.data == nil || istype(val3.data, respNull)) ==> value.data == nil
+//@ ensures [C15] bloberr: istype(val3.data, respBlobError) ==> istype(value.data, respErrorString)
+//@ ensures [C15] aggregate: (istype(val3.data, respMap) || istype(val3.data, respPairs) || istype(val3.data, respArray) || istype(val3.data, respSet) || istype(val3.data, respAttributeMap)) ==> istype(value.data, respArray)
+//@ use resp3ArrayToResp2.resp2 resp3MapToResp2.resp2 resp3PairsToResp2.resp2 resp3SetToResp2.resp2 resp3AttributeMapToResp2.resp2
+
+//@ func resp3ArrayToResp2
+//@ prop C15
+//@ modifies heap
+//@ ensures [C15] len: len(a) == len(val)
+//@ ensures [C15] resp2: all(j, 0, len(a), resp2(a[j]))
+//@ loop "for _, e := range val" invariant len(a) == ri1 && all(j, 0, ri1, resp2(a[j]))
+
+//@ func resp3PairsToResp2
+//@ prop C15
+//@ modifies heap
+//@ ensures [C15] len: len(a) == 2*len(val)
+//@ ensures [C15] resp2: all(j, 0, len(a), resp2(a[j]))
+//@ loop "for _, pair := range val" invariant len(a) == 2*ri1 && all(j, 0, 2*ri1, resp2(a[j]))
+
+//@ func resp3SetToResp2
+//@ prop C15
+//@ modifies heap
+//@ ensures [C15] resp2: all(j, 0, len(a), resp2(a[j]))
+//@ loop "for e := range val" invariant all(j, 0, len(a), resp2(a[j]))
+
+//@ func resp3MapToResp2
+//@ prop C15
+//@ modifies heap
+//@ ensures [C15] len: len(a) == 2*len(val.orderedRespMap.order)
+//@ ensures [C15] resp2: all(j, 0, len(a), resp2(a[j]))
+//@ loop "for _, rk := range val.order" invariant len(a) == 2*ri1 && all(j, 0, 2*ri1, resp2(a[j]))
+
+//@ func resp3AttributeMapToResp2
+//@ prop C15
+//@ modifies heap
+//@ ensures free resp2: all(j, 0, len(a), resp2(a[j]))
+//@ note the resp2 clause of the attribute-map converter is assumed: its values pass through a local Go map whose contents are not modelled; no handler builds attribute maps
